@@ -400,8 +400,10 @@ impl DiskCache {
             // item simultaneously.
             if item != cache_item {
                 overlapping_item_paths.insert(self.item_path(key, &item)?);
-                total_bytes_rm += item.len;
             }
+            // the item leaves the state either way (an identical one is re-added below),
+            // so its bytes must leave the total along with its count.
+            total_bytes_rm += item.len;
         }
         state.num_items -= num_items_rm;
         state.total_bytes -= total_bytes_rm;
